@@ -197,6 +197,29 @@ def subfield_layer(ck, n_cases):
     ck.sample({"layer": "subfield-expr", "example": "np.unique(las.classification), las.return_number + np.uint8(3), las.synthetic[mask]"})
 
 
+def two_views_layer(ck, n_cases):
+    """numpy functions that take two views at once, of different sub-fields packed in the same byte (and of different bytes)"""
+    from laspy.point import dims
+    fmts = sorted(dims.POINT_FORMAT_DIMENSIONS.keys())
+    fns = {"concatenate": lambda a, b: np.concatenate([a, b]), "column_stack": lambda a, b: np.column_stack([a, b]),
+           "maximum": np.maximum, "less": np.less, "where": lambda a, b: np.where(a > 0, a, b), "add": np.add,
+           "logical_and": np.logical_and, "stack": lambda a, b: np.stack([a, b])}
+    for _ in range(n_cases):
+        fmt = ck.rng.choice(fmts)
+        n = ck.rng.choice([2, 5, 9])
+        rec = c09.new_record(fmt, n, ck.rng)
+        subs = c09.subfields(fmt)
+        a = ck.rng.choice(subs)
+        same_byte = [x for x in subs if x[0] == a[0] and x[1] != a[1]]
+        b = ck.rng.choice(same_byte) if same_byte and ck.rng.random() < 0.8 else ck.rng.choice(subs)
+        va, vb = rec[a[1]], rec[b[1]]
+        pa, pb = np.array(va), np.array(vb)
+        fname = ck.rng.choice(sorted(fns))
+        base = {"kind": "two_views", "fmt": fmt, "fields": [a[1], b[1]], "func": fname, "bytes": rec.array[a[0]].tobytes().hex()}
+        ck.count("two_views:" + ("same_byte" if a[0] == b[0] else "other_byte"))
+        compare(ck, f"fmt {fmt} np.{fname}({a[1]}, {b[1]})", lambda: fns[fname](va, vb), lambda: fns[fname](pa, pb), dict(base, finding_key="C10:two_views"))
+
+
 def kept_view_layer(ck, n_cases):
     """a view kept by the caller is a view onto the record: after the record is written by another route (assignment through
     the record, a fresh view, or the raw array) every expression on the kept view must give what numpy gives on the field's
@@ -299,7 +322,9 @@ def scaled_layer(ck, n_cases):
             compare(ck, f"np.{fname}({name}({k}))", lambda: fn(view), lambda: fn(plain), dict(base, expr=f"np.{fname}(view)", finding_key="C10:scaled:reduce"))
         elif kind == "method":
             m = ck.rng.choice(["min", "max"])
-            compare(ck, f"{name}({k}).{m}()", lambda: getattr(view, m)(), lambda: getattr(plain, m)(), dict(base, expr=f"view.{m}()", finding_key=f"C10:scaled:method:{'multi' if k > 1 else 'single'}"))
+            kw = ck.rng.choice([{}, {}, {"axis": 0}, {"axis": -1}, {"axis": 0, "keepdims": True}] if k > 1 else [{}, {"axis": 0}])
+            compare(ck, f"{name}({k}).{m}({kw})", lambda: getattr(view, m)(**kw), lambda: getattr(plain, m)(**kw),
+                    dict(base, expr=f"view.{m}(**{kw})", finding_key=f"C10:scaled:method:{'multi' if k > 1 else 'single'}"))
         elif kind == "index":
             kkind, key = c09.gen_key(ck.rng, n)
             if kkind in ("list", "list_dup") and ck.rng.random() < 0.5:
@@ -354,6 +379,7 @@ def run(ck):
     q = ck.tier == "quick"
     subfield_layer(ck, 1500 if q else 30000)
     kept_view_layer(ck, 60 if q else 1500)
+    two_views_layer(ck, 150 if q else 3000)
     scaled_layer(ck, 800 if q else 12000)
     ck.failures.sort(key=lambda f: (f["input"]["kind"] != "cmp", abs(f["input"].get("c", 0))))
     if ck.tier == "thorough":
